@@ -27,6 +27,7 @@ EXPLANATION = (
     "Argument provenance of the entrypoint traces (T4), producer/consumer agreement of the range keys between range finder and "
     "transformer (T12), arm tables of transform_decl / transform_item for retention (T8)."
 )
+EXPLANATION += " " + '(The range-key agreement rule mentioned above was dropped as inexact; see DESIGN.md 2.3.) Plus: start-index computation of the trailing optional run, conversion of an optional parameter, every public-range `retain` passed on every non-error path (T2), the package queue loop never stops early.'
 NOT_DECIDED = "equality of export sets, signature preservation (relational facts about two texts); of the optional-parameter normalisation only the start-index computation is decided, not the emitted text"
 ASSUMPTIONS = []
 
